@@ -13,6 +13,7 @@ import (
 	"github.com/cube2222/octosql/execution/files"
 	"github.com/cube2222/octosql/octosql"
 	"github.com/cube2222/octosql/physical"
+	"github.com/cube2222/octosql/verifhook"
 )
 
 type DatasourceExecuting struct {
@@ -75,6 +76,7 @@ func (d *DatasourceExecuting) Run(ctx ExecutionContext, produce ProduceFn, metaS
 			job.data = append(job.data, data)
 
 			if len(job.lines) == batchSize {
+				verifhook.Point("json.reader.before_submit")
 				select {
 				case outChanAvailableTokens <- struct{}{}:
 					parserWorkReceiveChannel <- job
